@@ -295,6 +295,8 @@ func isNilValue(v Value) bool {
 		return v == nil
 	case *Closure:
 		return v == nil
+	case *nativeFunc:
+		return v == nil
 	case nil:
 		return true
 	}
@@ -369,6 +371,8 @@ func (ex *Exec) equals(t types.Type, x, y Value) *smt.Term {
 		return c.Bool(isNilValue(x) == isNilValue(y))
 	case *Closure:
 		return c.Bool(isNilValue(x) == isNilValue(y))
+	case *nativeFunc:
+		return c.Bool((x == nil) == isNilValue(y))
 	}
 	unsupp("equals on %T", x)
 	return nil
